@@ -154,15 +154,19 @@ def check(ctx):
     wd = tlc.workdir("pipe_" + prop)
     events = []
     runs = 0
+    grp = 0
 
     def add_run(table, config, frontend, rel, form, max_orders):
-        nonlocal runs
+        nonlocal runs, grp
         runs += 1
+        if rel == "base":
+            grp += 1
         evs = pipe_exec.run_frontend(frontend, table, config, wd, form=form, max_orders=max_orders, rng=ctx.rng)
         for e in evs:
             e["id"] = len(events) + 1
             e["rid"] = runs
             e["rel"] = {"kind": rel}
+            e["grp"] = grp          # a base run and its healthy-only twin are validated together
             e.pop("msg", None)
             events.append(e)
 
@@ -199,7 +203,7 @@ def check(ctx):
                 add_run(tb, healthy_only(tb, cfg), fe, "healthy_of", form, 0)
     ctx.cov["real_runs"] = runs
     ctx.cov["frontends"] = fe_all
-    rejects = core.validate_parallel(ctx, events, "Trace_Pipeline", "pipe", session_key="rid", chunk=1500)
+    rejects = core.validate_parallel(ctx, events, "Trace_Pipeline", "pipe", session_key="grp", chunk=1500)
     by_id = {e["id"]: e for e in events}
     loads = {}
     for e in events:
